@@ -192,6 +192,39 @@ def rule_r2(rep, idx):
             where = pos(c)
     detail = 'no istream::read into memory.data()'
     ok = False
+    if not ok_dest:
+        # another loader shape: the image reaches memory through memcpy from a staging buffer
+        mcs = [c for c in cast.calls_in(f.body) if callee_of(c)[1] == 'memcpy' and
+               any(callee_of(x)[1] == 'data' and any(y.get('name') == 'memory' for y in walk(x)) for x in cast.calls_in(cast.call_args(c)[0]))]
+        hdr_vars = set()
+        for c in reads:
+            a_ = cast.call_args(c)
+            if len(a_) > 1 and cast.const_int(a_[1], idx) == 4:
+                for y in walk(a_[0]):
+                    if y['kind'] == 'DeclRefExpr' and (y.get('referencedDecl') or {}).get('kind') == 'VarDecl':
+                        hdr_vars.add(y['referencedDecl']['id'])
+        if len(mcs) == 1 and hdr_vars:
+            inits = {d['id']: children(d)[-1] for d in walk(f.body) if d['kind'] == 'VarDecl' and children(d)}
+            todo, seen, uses_hdr, sizes_of = [cast.call_args(mcs[0])[2]], set(), False, []
+            while todo:
+                e = todo.pop()
+                for x in walk(e):
+                    if x['kind'] == 'DeclRefExpr':
+                        r = x.get('referencedDecl') or {}
+                        if r.get('id') in hdr_vars:
+                            uses_hdr = True
+                        elif r.get('kind') == 'VarDecl' and r.get('id') in inits and r['id'] not in seen:
+                            seen.add(r['id'])
+                            todo.append(inits[r['id']])
+                    if x['kind'] == 'CXXMemberCallExpr' and callee_of(x)[1] == 'size':
+                        sizes_of.append(pos(x))
+            if not uses_hdr:
+                rep.add('R2', 'load:image-at-0-length-word<<2', False, pos(mcs[0]) + ' ' + f.qname,
+                        'the number of bytes copied into memory does not depend on the length word of the header (it is the size of what was '
+                        'read from the file): the symbol tables behind the image land in simulated memory, which must read as zero there')
+                return
+        rep.undecided('R2', 'load:image-at-0-length-word<<2', 'the loader does not read the image straight into memory.data(): idiom not recognised', pos(f.node))
+        return
     if ok_dest and size_var:
         # size variable: read as 4 bytes from the file, then `<<= 2`, no other modification before the image read
         mods = []
@@ -211,6 +244,39 @@ def rule_r2(rep, idx):
             rep.undecided('R2', 'load:image-at-0-length-word<<2', 'size computation idiom not recognised: %s' % mods, pos(f.node))
             return
     rep.add('R2', 'load:image-at-0-length-word<<2', ok, pos(f.node) + ' ' + f.qname, detail)
+    # no image that fits into the simulated memory is turned away: a size guard must compare like with like (bytes vs words)
+    memw = None
+    for fld in idx.record('hexsim::Processor').fields:
+        if fld.get('name') == 'memory':
+            import re as _re
+            m_ = _re.search(r'(\d+)', cast.dqt(fld) or qt(fld))
+            if m_:
+                memw = int(m_.group(1))
+    if ok_dest and size_var and memw:
+        order = {id(n): k for k, n in enumerate(walk(f.body))}
+        scale_at = min([order[id(n)] for n in walk(f.body) if n['kind'] == 'CompoundAssignOperator' and cast.decl_ref(children(n)[0]) == size_var] or [1 << 30])
+        for st in walk(f.body):
+            if st['kind'] != 'IfStmt':
+                continue
+            ch = children(st)
+            if not any(x['kind'] == 'CXXThrowExpr' for x in walk(ch[1])):
+                continue
+            cnd = cast.strip(ch[0])
+            if cnd['kind'] != 'BinaryOperator' or cnd.get('opcode') not in ('>', '>='):
+                continue
+            a, b = children(cnd)
+            if cast.decl_ref(a) != size_var:
+                continue
+            bound = cast.const_int(b, idx)
+            if bound is None:
+                continue
+            in_bytes = order[id(st)] > scale_at
+            need = memw * 4 if in_bytes else memw
+            too_small = bound + (1 if cnd['opcode'] == '>' else 0) <= need - (0 if in_bytes else 0) and bound < need
+            rep.add('R2', 'load:size-guard@%s' % pos(st).split(':')[-1], not too_small, pos(st) + ' ' + f.qname,
+                    ('the loader rejects an image of more than %d %s, but the memory holds %d words = %d bytes: every image between the two sizes '
+                     'is turned away although it fits' % (bound, 'bytes' if in_bytes else 'words', memw, memw * 4)) if too_small else
+                    'size guard %s %d %s covers the memory' % (cnd['opcode'], bound, 'bytes' if in_bytes else 'words'))
 
 
 def switch_cases(idx, func, selector_hint=None):
